@@ -59,6 +59,21 @@ CHECKS = {
           "1..4 halves of 11 kinds (mpsc/oneshot/watch/lr/bin sender and receiver halves, broadcast receiver) placed in vec / option / map / tuple / enum / nested containers, forwarded over 1..3 connections, with queued items at hand-over, low credit, max_ports exhaustion on all or only the receiving endpoint. Every half is exercised with a label unique to its channel: it must arrive at its counterpart and nowhere else; when a half cannot be connected both ends must report an error within the horizon; a failing value must not wedge the carrying channel.",
           "Values stay below max_data_size (no helper threads). lr halves are documented as non-forwardable and are expected to fail cleanly over >= 2 hops.",
           "DESIGN.md 4/C05"),
+  "C15": ("model_checking",
+          "grid enumeration (update count x drop/keep x transfer moment x hops x reader style x pacing x stalled transport) + deviation-bounded schedule exploration of real watch channels",
+          "Four receivers per case (local, late clone/subscription, two sent to the remote endpoint before/while updates are in flight, optionally forwarded over a second connection; or the sender half sent away). Oracle: every observed sequence is non-decreasing and contains only sent values; every receiver ends holding the last value sent, also when the sender is dropped right after sending it and when the transport to the receiver was blocked while newer values were written.",
+          "Connection stays up. select! fairness fixed per seed.",
+          "DESIGN.md 4/C15"),
+  "C16": ("model_checking",
+          "grid enumeration (burst x send/receive buffer x consumption pattern x local/remote x join point x pacing) + deviation-bounded schedule exploration of real broadcast channels; per-subscriber log oracle",
+          "Per subscriber: values strictly increasing, none from before the subscription, exactly one lag marker at every gap and none without a gap, Closed at the end (never a hang, also with send_buffer 1); a subscriber that keeps up with a paced sender receives every value even next to a subscriber that never consumes; send is synchronous and never fails while subscribers exist.",
+          "'Keeps up' defined operationally (quiescence between sends).",
+          "DESIGN.md 4/C16"),
+  "C18": ("model_checking",
+          "bounded exhaustive enumeration of byte strings x write partitions x modes x endings x cut frames on real rch::io channels + deviation-bounded schedule exploration of core transfers",
+          "Lengths around chunk_size/receive_buffer, all compositions into <= 3/4 writes incl. empty writes and a flush, sized with declared L-1/L/L+1 and unsized, shutdown / flush+drop / drop, read buffer sizes 1/chunk/L+1, either half remote, connection cut after every frame. Oracle: bytes read are a prefix of bytes accepted; EOF is reported successfully only for complete streams; over-long writes refused; complete healthy streams fully delivered; no panic and no hang on either side.",
+          "A cut makes both directions report end-of-stream / sink error.",
+          "DESIGN.md 4/C18"),
 }
 
 NOT_YET = "check not built yet in this session (design in DESIGN.md section 4); not claimed"
